@@ -239,6 +239,7 @@ class DriverGen:
             out.append("        if(cur == \"%s\") { ::%s::messages::%s<char> m{p, n};" % (m.name, s.package, m.name))
             out.append("          if(a[0] == \"size\") res = std::to_string(static_cast<unsigned long long>(sbepp::size_bytes(m)));")
             out.append("          else if(a[0] == \"sbc\") { auto r = sbepp::size_bytes_checked(m, n); res = r.valid ? (\"valid \" + std::to_string(static_cast<unsigned long long>(r.size))) : std::string(\"invalid\"); }")
+            out.append("          else if(a[0] == \"sbcn\") { auto r = sbepp::size_bytes_checked(m, static_cast<std::size_t>(std::strtoull(a[1].c_str(), nullptr, 10))); res = r.valid ? (\"valid \" + std::to_string(static_cast<unsigned long long>(r.size))) : std::string(\"invalid\"); }")
             out.append("          else if(a[0] == \"fillhdr\") { auto h = sbepp::fill_message_header(m); res = (sbepp::addressof(h) == sbepp::addressof(m)) ? \"ok\" : \"ERRHDRVIEW\"; }")
             ng = count_groups(m)
             args = ", ".join(["static_cast<decltype(mh::arg_type<%d>(&sbepp::message_traits<::%s::schema::messages::%s>::size_bytes))>(std::strtoull(a[%d].c_str(), nullptr, 10))" % (i, s.package, m.name, i + 1) for i in range(ng + (1 if has_data(m) else 0))])
